@@ -29,7 +29,7 @@ man = dict(
     setup_cmd="bin/check setup",
     hooks=dict(guard="verif (Go build tag)", enable="go build -tags verif (harness module replaces github.com/buildkite/go-pipeline => /repo)",
                baseline_off_cmd="cd /repo && go test -vet=off -count=1 ./...",
-               source_commits=["bd64d21"], add_only=True),
+               source_commits=["bd64d21", "29729a6"], add_only=True),
     engines=[dict(name="lean4-proof+correspondence", path="/verif/lean + /verif/harness + /verif/bin/check",
                   serves_properties=[c["property_id"] for c in checks],
                   kind_free_text="Lean 4 theorems about an executable model; model tied to /repo by go/ast fact translators regenerating Gen/*.lean and by differential correspondence (Go harness -tags verif vs compiled Lean driver); direct Go oracles as failing-input search")],
